@@ -372,6 +372,12 @@ dateutils_verif_probe(const char *site, long a, long b, long c, long d)
 		/* a = t, b = cache.prev, c = cache.next, d = trno
 		 * prev == next is the code's way of saying "before the first
 		 * transition, nothing to cache" (outside the property's domain) */
+		if (a >= 140737488355327LL || a < -140737488355328LL) {
+			/* outside the 48-bit stamp domain (garbage date like
+			 * 1601-00-30 converted to an instant): ranges top out
+			 * at STAMP_MAX by design */
+			return;
+		}
 		if (b != c && !(b <= a && a < c)) {
 			verif_fail(site, "cached-range-excludes-instant", a, b, c, d);
 		}
